@@ -123,8 +123,12 @@ fn check_case(case: &Case, st: &mut Stats) -> Result<(), String> {
             refined.splice(i..=i, kids);
         }
     }
-    // permute the refinement differently
-    refined.reverse();
+    // order the refinement differently: reversed, or in ascending numeric ID order
+    if case.script.perm_seed % 2 == 0 {
+        refined.reverse();
+    } else {
+        refined.sort_by_key(codec::encode);
+    }
     let out2 = check_antichain(&refined, "refinement")?;
     let s1: BTreeSet<u64> = out1.iter().copied().collect();
     let s2: BTreeSet<u64> = out2.iter().copied().collect();
